@@ -10,8 +10,9 @@
    External behaviour enters as explicit arguments: which external command fails, where the
    process dies, health outcomes, filesystem obstacles that make one SwapArtifact fail, and
    the admission facts about a tarball (signature valid, digests match, members safe, ...).
-   [repaired] = what /repo HEAD does: all five repairs are committed (88f69f7, f4d379f, b6afef3, ca3a3f9, 31f4cb6)
-   and it is the only variant the correspondence check compares with.  [pre_31f4cb6], [pre_b6afef3], [pre_88f69f7]
+   [repaired] started from [init_world] = what /repo HEAD does: all six repairs are committed (88f69f7, f4d379f,
+   b6afef3, ca3a3f9, 31f4cb6, 97a5489) and it is the only variant the correspondence check compares with.
+   [init_world_pre_97a5489] (cfg_stage_fix = false) is historical.  [pre_31f4cb6], [pre_b6afef3], [pre_88f69f7]
    are historical (`_refuted` witnesses in Properties.v only); a regression to any of them is a VIOLATION. *)
 From OV Require Import Common.Base.
 
@@ -100,8 +101,8 @@ Record world := {
   g_clean : bool;                          (* ghost: no operator edit since then *)
   stale : path -> option N;                (* a REGULAR file sitting at <dir>/.<base>.new (left by a swap that was killed
                                               between writing it and the rename): its mode *)
-  cfg_stage_fix : bool }.                  (* swapArtifact removes such a leftover before writing (true = /repo HEAD
-                                              once fixes/C18_swap_discards_stale_staging_file is in) *)
+  cfg_stage_fix : bool }.                  (* swapArtifact removes such a leftover before writing (true = /repo HEAD,
+                                              since 97a5489; false only in the historical witness) *)
 
 Definition set_fs w f := {| fs := f; cur := cur w; jr := jr w; snaps := snaps w; obst := obst w; g_base := g_base w; g_inst := g_inst w; g_fs0 := g_fs0 w; g_clean := g_clean w; stale := stale w; cfg_stage_fix := cfg_stage_fix w |}.
 Definition set_cur w c := {| fs := fs w; cur := c; jr := jr w; snaps := snaps w; obst := obst w; g_base := g_base w; g_inst := g_inst w; g_fs0 := g_fs0 w; g_clean := g_clean w; stale := stale w; cfg_stage_fix := cfg_stage_fix w |}.
@@ -596,8 +597,8 @@ Definition init_world (c : ver) (f : path -> option file) : world :=
   {| fs := f; cur := c; jr := None; snaps := fun _ => None; obst := fun _ => None; g_base := None; g_inst := c;
      g_fs0 := f; g_clean := true; stale := fun _ => None; cfg_stage_fix := true |}.
 
-(* /repo before the stale-staging repair *)
-Definition init_world_reusing (c : ver) (f : path -> option file) : world :=
+(* historical: /repo before 97a5489 (swapArtifact reused a stale staging file) *)
+Definition init_world_pre_97a5489 (c : ver) (f : path -> option file) : world :=
   set_stale {| fs := f; cur := c; jr := None; snaps := fun _ => None; obst := fun _ => None; g_base := None; g_inst := c;
                g_fs0 := f; g_clean := true; stale := fun _ => None; cfg_stage_fix := false |} (fun _ => None).
 
